@@ -12,6 +12,7 @@ type G struct {
 	ID     int64
 	State  string   // e.g. "running", "runnable", "chan receive", "select", "sync.Mutex.Lock", "sync.Cond.Wait", "semacquire", "IO wait", "sleep"
 	Frames []string // function names, innermost first
+	Creator int64   // id of the goroutine that created this one (0 if unknown)
 }
 
 // Blocked reports whether the goroutine is parked on a synchronisation primitive
@@ -93,6 +94,9 @@ func parseStacks(b []byte) []G {
 			}
 			s := string(l)
 			if strings.HasPrefix(s, "created by ") {
+				if i := strings.LastIndex(s, " in goroutine "); i >= 0 {
+					g.Creator, _ = strconv.ParseInt(s[i+len(" in goroutine "):], 10, 64)
+				}
 				continue
 			}
 			if i := strings.LastIndexByte(s, '('); i > 0 {
